@@ -55,6 +55,46 @@ func call(input *big.Int, ratio sdkmath.LegacyDec, sIn, sOut int) (r row) {
 	return r
 }
 
+// magnitude strata [lo, hi) as powers of two
+var strata = [][2]uint{{0, 31}, {31, 32}, {32, 53}, {53, 63}, {63, 64}, {64, 65}, {95, 97}, {127, 129}}
+
+// inStratum draws a value of stratum i with busy low bits.
+func inStratum(rng *rand.Rand, i int) *big.Int {
+	lo := new(big.Int).Lsh(big.NewInt(1), strata[i][0])
+	if strata[i][0] == 0 {
+		lo = big.NewInt(1)
+	}
+	hi := new(big.Int).Lsh(big.NewInt(1), strata[i][1])
+	v := new(big.Int).Rand(rng, new(big.Int).Sub(hi, lo))
+	v.Add(v, lo)
+	if v.Bit(0) == 0 && v.Cmp(new(big.Int).Sub(hi, big.NewInt(1))) < 0 {
+		v.Add(v, big.NewInt(1))
+	}
+	return v
+}
+
+const nRatioClasses = 6
+
+// ratioClass: 0 exactly one, 1 simple below one, 2 residue-rich below one, 3
+// residue-rich above one, 4 numerator in [2^63, 2^64), 5 numerator >= 2^64
+func ratioClass(rng *rand.Rand, c int) sdkmath.LegacyDec {
+	switch c % nRatioClasses {
+	case 0:
+		return sdkmath.LegacyOneDec()
+	case 1:
+		return sdkmath.LegacyMustNewDecFromStr([]string{"0.5", "0.3", "0.25"}[rng.Intn(3)])
+	case 2:
+		return sdkmath.LegacyNewDecFromBigIntWithPrec(inStratum(rng, 3), 18) // 0.009 .. 9.2
+	case 3:
+		m := new(big.Int).Add(pow10(18), inStratum(rng, 3))
+		return sdkmath.LegacyNewDecFromBigIntWithPrec(m, 18)
+	case 4:
+		return sdkmath.LegacyNewDecFromBigIntWithPrec(inStratum(rng, 4), 18)
+	default:
+		return sdkmath.LegacyNewDecFromBigIntWithPrec(inStratum(rng, 5+rng.Intn(2)), 18)
+	}
+}
+
 func driver(mode string, fl *drv.Flags) error {
 	if mode != "rows" {
 		return fmt.Errorf("unknown mode %q", mode)
@@ -112,6 +152,57 @@ func driver(mode string, fl *drv.Flags) error {
 			return x.Add(x, big.NewInt(int64(rng.Intn(3))))
 		default:
 			return new(big.Int).Rand(rng, new(big.Int).Lsh(big.NewInt(1), uint(1+rng.Intn(128))))
+		}
+	}
+	// MAGNITUDE STRATA: the operands of one call — the input amount, the scale
+	// multiplier 10^|sIn-sOut| and the ratio's numerator — are drawn TOGETHER from
+	// each stratum, and in mixed cells each operand fits a machine word while the
+	// product does not (a fixed-width fast path is bit-identical to big-integer
+	// arithmetic everywhere else).  Low bits are non-zero.
+	for i := 0; i < len(strata); i++ { // A: input stratum x ratio class, equal scales
+		for rc := 0; rc < nRatioClasses; rc++ {
+			s := rng.Intn(19)
+			rows = append(rows, call(inStratum(rng, i), ratioClass(rng, rc), s, s))
+		}
+	}
+	for _, b := range []uint{53, 63, 64, 128} { // B: input * 10^k just below / at / above 2^b
+		B := new(big.Int).Lsh(big.NewInt(1), b)
+		for _, k := range []int{1, 3, 9, 18} {
+			m := pow10(k)
+			for side := 0; side < 2; side++ {
+				// scale up by 10^k: input ~ 2^b / 10^k
+				in := new(big.Int).Quo(B, m)
+				if side == 0 {
+					in.Sub(in, big.NewInt(int64(1+rng.Intn(3))))
+				} else {
+					in.Add(in, big.NewInt(int64(1+rng.Intn(3))))
+				}
+				if in.Sign() > 0 {
+					base := rng.Intn(19 - k)
+					rows = append(rows, call(in, ratioClass(rng, side), base, base+k))
+				}
+				// scale down by 10^k: the give-back multiplies by 10^k again; input ~ 2^b
+				in2 := new(big.Int).Set(B)
+				if side == 0 {
+					in2.Sub(in2, big.NewInt(int64(1+rng.Intn(1000))))
+				} else {
+					in2.Add(in2, big.NewInt(int64(1+rng.Intn(1000))))
+				}
+				base := rng.Intn(19 - k)
+				rows = append(rows, call(in2, ratioClass(rng, 1+side), base+k, base))
+			}
+		}
+	}
+	for _, b := range []uint{53, 63, 64, 128} { // C: input * ratio numerator crossing 2^b, both below it
+		B := new(big.Int).Lsh(big.NewInt(1), b)
+		for j := 0; j < 2; j++ {
+			rn := inStratum(rng, 1+j) // numerator in [2^31,2^32) / [2^32,2^53): ratio ~1e-9 .. 1e-3
+			in := new(big.Int).Quo(B, rn)
+			in.Add(in, big.NewInt(int64(rng.Intn(5))-2))
+			if in.Sign() > 0 {
+				s := rng.Intn(19)
+				rows = append(rows, call(in, sdkmath.LegacyNewDecFromBigIntWithPrec(rn, 18), s, s))
+			}
 		}
 	}
 	for i := 0; i < fl.N; i++ {
